@@ -36,17 +36,19 @@ const (
 	cfS1
 	cfS2
 	cfS3
+	cfHealthUnset // which of intervalSeconds / timeoutSeconds / maxFailed the text leaves out (bits 1, 2, 4); monitor only
 	cfN
 )
 
-var cfvRadix = [cfN]int{5, 2, 2, 3, 2, 3, 3, 2, 2, 2, 7, 2, 2, 4, 3, 2, 2}
+// (new fields are appended: the most significant digit of an older code is 0, it keeps its meaning)
+var cfvRadix = [cfN]int{5, 2, 2, 3, 2, 3, 3, 2, 2, 2, 7, 2, 2, 4, 3, 2, 2, 8}
 
 var cfvFieldName = [cfN]string{"type", "transport.useEncryption", "transport.useCompression", "transport.bandwidthLimit",
 	"transport.bandwidthLimitMode", "transport.proxyProtocolVersion", "metadatas", "annotations", "loadBalancer.group",
 	"loadBalancer.groupKey", "healthCheck", "localIP", "localPort", "plugin", "type-specific 1", "type-specific 2", "type-specific 3"}
 
 const cfHealthMonitor = 6 // healthCheck digit: type tcp (NewWrapper creates a monitor)
-const cfPluginBogus = 3   // plugin digit: unregistered type (pxy.Run() fails)
+const cfPluginBogus = 3   // plugin digit: https2http with a certificate file that does not exist (pxy.Run() fails)
 
 func cfvDecode(code int) [cfN]int {
 	var d [cfN]int
@@ -74,20 +76,24 @@ func cfvCodes() int {
 	return m
 }
 
-// which type-specific digits a type has (tcp: remote port only; https: domains, subdomain)
-func cfvHas(typ, field int) bool {
+// which digits a vector has (tcp: remote port only; https: domains, subdomain; the health check's
+// defaulted members only where a monitor is configured)
+func cfvHas(d [cfN]int, field int) bool {
+	typ := d[cfType]
 	switch field {
 	case cfS2:
 		return typ != 0
 	case cfS3:
 		return typ == 1 || typ == 4
+	case cfHealthUnset:
+		return d[cfHealth] == cfHealthMonitor
 	}
 	return true
 }
 
 func cfvCanon(d [cfN]int) bool {
 	for f := 0; f < cfN; f++ {
-		if !cfvHas(d[cfType], f) && d[f] != 0 {
+		if !cfvHas(d, f) && d[f] != 0 {
 			return false
 		}
 	}
@@ -99,7 +105,15 @@ func cfvFlags(code int) (h, r bool) {
 	return d[cfHealth] == cfHealthMonitor, d[cfPlugin] == cfPluginBogus
 }
 
+// cfvBuild: the configuration as the loader delivers it (Complete()d)
 func cfvBuild(name string, code int) v1.ProxyConfigurer {
+	c := cfvBuildRaw(name, code)
+	c.Complete("")
+	return c
+}
+
+// cfvBuildRaw: only what the vector sets — the content of the entry in a configuration file
+func cfvBuildRaw(name string, code int) v1.ProxyConfigurer {
 	d := cfvDecode(code)
 	if code < 0 || code >= cfvCodes() || !cfvCanon(d) {
 		panic("field vector")
@@ -132,7 +146,17 @@ func cfvBuild(name string, code int) v1.ProxyConfigurer {
 	case 5:
 		b.HealthCheck.HTTPHeaders = []v1.HTTPHeader{{Name: "X-H", Value: "1"}}
 	case cfHealthMonitor:
-		b.HealthCheck = v1.HealthCheckConfig{Type: "tcp", IntervalSeconds: 1, TimeoutSeconds: 1, MaxFailed: 1}
+		// the members the text leaves out are defaulted by health.NewMonitor (10 s / 3 s / 1)
+		b.HealthCheck = v1.HealthCheckConfig{Type: "tcp"}
+		if d[cfHealthUnset]&1 == 0 {
+			b.HealthCheck.IntervalSeconds = 1
+		}
+		if d[cfHealthUnset]&2 == 0 {
+			b.HealthCheck.TimeoutSeconds = 1
+		}
+		if d[cfHealthUnset]&4 == 0 {
+			b.HealthCheck.MaxFailed = 1
+		}
 	}
 	b.LocalIP = []string{"", "127.0.0.2"}[d[cfLocalIP]]
 	b.LocalPort = 1 + d[cfLocalPort] // nothing listens there: the real monitor only ever sees refused probes
@@ -142,7 +166,7 @@ func cfvBuild(name string, code int) v1.ProxyConfigurer {
 	case 2:
 		b.Plugin = v1.TypedClientPluginOptions{Type: "socks5", ClientPluginOptions: &v1.Socks5PluginOptions{Type: "socks5", Username: "w", Password: "p"}}
 	case cfPluginBogus:
-		b.Plugin = v1.TypedClientPluginOptions{Type: "verif-bogus"}
+		b.Plugin = cfvFailingPlugin()
 	}
 	domains := [][]string{{"a.example.com"}, {"a.example.com", "b.example.com"}, {"b.example.com"}}[d[cfS1]]
 	var c v1.ProxyConfigurer
@@ -169,8 +193,13 @@ func cfvBuild(name string, code int) v1.ProxyConfigurer {
 		x.RouteByHTTPUser = []string{"", "ru"}[d[cfS3]]
 		c = x
 	}
-	c.Complete("")
 	return c
+}
+
+// a plugin the loader accepts and Run() cannot create (enableHTTP2 is left to Complete())
+func cfvFailingPlugin() v1.TypedClientPluginOptions {
+	return v1.TypedClientPluginOptions{Type: "https2http", ClientPluginOptions: &v1.HTTPS2HTTPPluginOptions{
+		Type: "https2http", LocalAddr: "127.0.0.1:1", CrtPath: "/nonexistent/verif.crt", KeyPath: "/nonexistent/verif.key"}}
 }
 
 // cfvRandom draws a configuration: mostly plain (a few digits set), so that two draws often differ in
@@ -191,8 +220,11 @@ func cfvRandom(rng *rand.Rand, plain bool) int {
 			d[cfPlugin] = rng.Intn(cfPluginBogus)
 		}
 	}
+	if d[cfHealth] == cfHealthMonitor && rng.Intn(4) != 0 {
+		d[cfHealthUnset] = 1 + rng.Intn(7) // mostly: some default is left to the monitor
+	}
 	for f := 0; f < cfN; f++ {
-		if !cfvHas(d[cfType], f) {
+		if !cfvHas(d, f) {
 			d[f] = 0
 		}
 	}
@@ -205,7 +237,7 @@ func cfvChangeOne(rng *rand.Rand, code int, plain bool) int {
 	d := cfvDecode(code)
 	for {
 		f := rng.Intn(cfN)
-		if !cfvHas(d[cfType], f) {
+		if !cfvHas(d, f) {
 			continue
 		}
 		nv := (d[f] + 1 + rng.Intn(cfvRadix[f]-1)) % cfvRadix[f]
@@ -213,8 +245,11 @@ func cfvChangeOne(rng *rand.Rand, code int, plain bool) int {
 			continue
 		}
 		d[f] = nv
+		if f == cfHealth && nv == cfHealthMonitor && rng.Intn(4) != 0 {
+			d[cfHealthUnset] = 1 + rng.Intn(7) // (still one field of the file: the healthCheck block)
+		}
 		for g := 0; g < cfN; g++ {
-			if !cfvHas(d[cfType], g) {
+			if !cfvHas(d, g) {
 				d[g] = 0
 			}
 		}
